@@ -18,6 +18,10 @@ Go facts mirrored here (all under `c.mu`):
 * a failed regular subscribe removes its reservation if the generation still matches; a successful one
   turns it into a subscription if the generation still matches (generations are unique and a callback
   answers once, so `complete` only ever meets its own `reserved` placeholder);
+* shared-poll client subscribe (`handleSharedPollSubscribe`): channel present in either map →
+  `ErrorAlreadySubscribed`; `len(channels)+len(mapSubscribing) ≥ limit` → `ErrorLimitExceeded`; otherwise
+  a reservation in `c.channels` in the same critical section (no channel-name length check on this path);
+  it completes or fails like a regular subscribe;
 * server-side `Client.Subscribe` compares `len(c.channels)` alone with the limit and closes the
   connection with `DisconnectChannelLimit` when it is reached.
 -/
@@ -75,6 +79,8 @@ def LState.clientSubs (s : LState) : Nat :=
 inductive Ev
   /-- `validateSubscribeRequest` for a regular subscribe of a channel whose name has `len` bytes -/
   | subReg (ch len : Nat)
+  /-- `handleSharedPollSubscribe`: check and reserve (third reservation path, same limit rule) -/
+  | subPoll (ch : Nat)
   /-- `validateSubscribeRequest` for an initial map subscribe (checks only) -/
   | subMapValidate (ch len : Nat)
   /-- the map subscribe continues after `OnSubscribe`: reserve in `mapSubscribing` -/
@@ -92,6 +98,11 @@ def step (s : LState) : Ev → LState × Res
   | .subReg ch len =>
     if 0 < s.maxLen ∧ s.maxLen < len then (s, .badRequest)
     else if s.inChannels ch ∨ s.inMap ch then (s, .alreadySubscribed)
+    else if 0 < s.limit ∧ s.limit ≤ s.total then (s, .limitExceeded)
+    else ({ s with channels := s.channels ++ [⟨ch, s.nextGen, .reserved⟩], nextGen := s.nextGen + 1 },
+          .ok s.nextGen)
+  | .subPoll ch =>
+    if s.inChannels ch ∨ s.inMap ch then (s, .alreadySubscribed)
     else if 0 < s.limit ∧ s.limit ≤ s.total then (s, .limitExceeded)
     else ({ s with channels := s.channels ++ [⟨ch, s.nextGen, .reserved⟩], nextGen := s.nextGen + 1 },
           .ok s.nextGen)
@@ -136,7 +147,7 @@ def run (s : LState) : List Ev → LState
 
 /-- events of the regular (non-map) client subscribe flow, unsubscribes, and server-side subscribes -/
 def Ev.regular : Ev → Bool
-  | .subReg .. | .complete .. | .unsub .. | .serverSub .. => true
+  | .subReg .. | .subPoll .. | .complete .. | .unsub .. | .serverSub .. => true
   | _ => false
 
 end CentrifugeVerif.Limits
